@@ -9,7 +9,8 @@ import MdVerif.Driver.Writer
 import MdVerif.Driver.Sel
 import MdVerif.Driver.Mic
 import MdVerif.Driver.Cell
-open MdVerif MdVerif.Driver MdVerif.Driver.TrajP MdVerif.Driver.TopoP MdVerif.Driver.WriterP MdVerif.Driver.SelP MdVerif.Driver.MicP MdVerif.Driver.CellP
+import MdVerif.Driver.Nb
+open MdVerif MdVerif.Driver MdVerif.Driver.TrajP MdVerif.Driver.TopoP MdVerif.Driver.WriterP MdVerif.Driver.SelP MdVerif.Driver.MicP MdVerif.Driver.CellP MdVerif.Driver.NbP
 
 def handle (line : String) : String :=
   let ws := (line.splitOn " ").filter (· ≠ "")
@@ -21,6 +22,7 @@ def handle (line : String) : String :=
   | "sel" :: _ => handleSel ws
   | "mic" :: _ => handleMic ws
   | "cell" :: _ | "cellops" :: _ => handleCell ws
+  | "nbl" :: _ | "nbs" :: _ => handleNb ws
   | _ => "bad-op"
 
 partial def loop (h : IO.FS.Stream) (out : IO.FS.Stream) : IO Unit := do
